@@ -513,7 +513,7 @@ def st_shift(draw):
     pr = None
     if (arg["frac"] is None and "X" not in arg["dexpr"] and "YY" in arg["dexpr"]
             and arg["time"] is not None and arg["time"].get("hour") != 24
-            and draw(st.integers(0, 3)) == 0):
+            and draw(st.integers(0, 2)) == 0):
         k3 = draw(st.integers(0, 2))
         if k3 == 0:
             i = draw(st.integers(0, len(PRINT_ISO) - 1))
@@ -677,7 +677,7 @@ def check_case_outer(case):
 def run_shard(ctx):
     quick = ctx.tier == "quick"
     n = 1000 if quick else 25000
-    ctx.hyp(st_shift(), check_case_outer, n)
+    ctx.hyp(st_shift(), check_case_outer, n + n // 2)
     ctx.hyp(st_diff(), check_case_outer, n // 2, seed_salt=1)
     ctx.hyp(st_recur(), check_case_outer, n // 4, seed_salt=2)
     ctx.hyp(st_bad(), check_case_outer, n // 2, seed_salt=3)
